@@ -85,7 +85,9 @@ func UxID(src cipher.SHA256, a cipher.Address, coins, hours uint64) cipher.SHA25
 }
 
 // UxBodyID hashes a UxBody value.
-func UxBodyID(b coin.UxBody) cipher.SHA256 { return UxID(b.SrcTransaction, b.Address, b.Coins, b.Hours) }
+func UxBodyID(b coin.UxBody) cipher.SHA256 {
+	return UxID(b.SrcTransaction, b.Address, b.Coins, b.Hours)
+}
 
 // SnapshotHash = sha256(body || Time u64 || BkSeq u64).
 func SnapshotHash(ux coin.UxOut) cipher.SHA256 {
